@@ -99,7 +99,7 @@ def mut(e):
 def run(ctx):
     ctx.mc("MC_Seed", core.cfg_of("MC_Seed.cfg"), coverage=False,
            label="abstract constructors, every idempotent normalisation of a 4-text alphabet")
-    events = core.build_events(ctx, gen_inputs(ctx))
+    events = core.build_events(ctx, gen_inputs(ctx) if ctx.quick else core.rounds(ctx, gen_inputs, 8))
     events += core.suite_events(ctx, ["tests/test_bip39.py", "tests/test_base_wallet.py"], ("Seed",), len(events),
                                 limit=25 if ctx.quick else 400)
     for e in events[3:5] + events[-1:]:
